@@ -37,15 +37,15 @@ type Dag struct {
 }
 
 type DagSpec struct {
-	N         int
-	Events    int
-	TxProb    float64
-	Private   float64 // probability a creator extends its own chain without other-parent
+	N            int
+	Events       int
+	TxProb       float64
+	Private      float64 // probability a creator extends its own chain without other-parent
 	NoOtherFirst float64 // probability a creator's first event has no other-parent
-	Repeat    float64 // probability of re-using the previous other-parent (equal lamport ties)
-	ClockSkew int64   // honest clocks differ by up to this many seconds
-	Liars     int     // number of creators with arbitrary timestamps
-	ItxProb   float64
+	Repeat       float64 // probability of re-using the previous other-parent (equal lamport ties)
+	ClockSkew    int64   // honest clocks differ by up to this many seconds
+	Liars        int     // number of creators with arbitrary timestamps
+	ItxProb      float64
 	// Hidden: one creator's head is not used as other-parent by the creators in
 	// HiddenFrom during [HideFrom, HideTo) (fractions of the DAG): produces
 	// split votes and long fame elections
@@ -309,10 +309,10 @@ func (d *Dag) randomIdeal(rng *rand.Rand) map[string]bool {
 // ---------------------------------------------------------------------------
 
 type ExecOpts struct {
-	Store  string // inmem | badger
-	Cache  int
-	Batch  int // consensus passes every Batch insertions (<=0: once at the end)
-	Dir    string
+	Store      string // inmem | badger
+	Cache      int
+	Batch      int // consensus passes every Batch insertions (<=0: once at the end)
+	Dir        string
 	ReadValues bool
 	// ProbeStraggler (workload search only): count the moments at which a round
 	// has more than a supermajority of famous witnesses, another witness still
@@ -335,15 +335,15 @@ type DagExec struct {
 	MaxUndet int
 	// MaxPendingSpan: largest (last round - oldest round with an undecided
 	// witness) seen after a consensus pass; >= 4 means a coin round voted
-	MaxPendingSpan int
+	MaxPendingSpan   int
 	StragglerMoments int
-	stragglerCands [][3]string // (event, undecided witness, round as string)
-	stragglerAt    []int       // insertion index at which each candidate was first seen
-	curInsert      int
-	H        *hg.Hashgraph
-	Store    hg.Store
-	Inserted int
-	RawBlocks []*hg.Block
+	stragglerCands   [][3]string // (event, undecided witness, round as string)
+	stragglerAt      []int       // insertion index at which each candidate was first seen
+	curInsert        int
+	H                *hg.Hashgraph
+	Store            hg.Store
+	Inserted         int
+	RawBlocks        []*hg.Block
 }
 
 func (x *DagExec) close() {
